@@ -39,7 +39,10 @@ RULE = ("case = (handshake flavour, deviant side, index of one of its "
         "body), edge values for every length-prefixed vector (0, 1, "
         "all-ones, empty, 1 KiB) - plus raw byte strings (honest bytes with "
         "drawn edits, or arbitrary) at server-first-flight, client-after-"
-        "hello and established-connection targets; non-trivial = mutated "
+        "hello and established-connection targets - plus (postrec) one "
+        "protected post-handshake record of each content type with each "
+        "short / lying body of a fixed table, sent by a key-holding peer "
+        "to either endpoint in TLS 1.2 and 1.3; non-trivial = mutated "
         "bytes differ from the honest ones and were delivered to the "
         "victim; distinct = hash(case); failures bucketed by (exception "
         "type, innermost tlslite frame)")
@@ -569,9 +572,72 @@ def judge(conn, outcome, who, wire_before, link, side, labels,
     return None
 
 
+def check_postrec(case):
+    """Established connection; the peer (which holds the keys) sends one
+    *protected* record with a chosen content type and a short or malformed
+    body, then some application data. The victim's read must end like any
+    other read: data, a TLS exception with alert / closure, never a bare
+    Python error or a hang."""
+    from vlib.deviant import RawMsg
+    fl = "tls12-rsa" if case.get("v12") else "tls13"
+    vic = case["vic"]
+    snd = "s" if vic == "c" else "c"
+    body = bytes.fromhex(case["hex"])
+    labels = ["postrec", "fl=" + fl, "vic=" + vic, "ct=%d" % case["ct"],
+              "len=%s" % (len(body) if len(body) < 4 else "4+")]
+    client, server = opts_for(fl)
+    DET.reseed("C08post", fl)
+    p = sc.connect(client, server)
+    if not p.both_ok:
+        raise BaselineBroken("postrec", "%r %r" % (p.co, p.so))
+    if vic == "c":
+        # tickets first, so that the record under test is what is read next
+        sc.do_write(p, "s", b"")
+        sc.read_all(p, "c")
+    before = len(p.link.wire(vic))
+    drive({snd: p.conn(snd)._sendMsg(RawMsg(case["ct"], body))}, p.link,
+          on_stall="leave")
+    sc.do_write(p, snd, b"after")
+    o = None
+    for _ in range(4):
+        o = sc.do_read(p, vic, 100, 1)
+        if not (o.state == "done" and o.value):
+            break
+    if o.state == "budget":
+        return bad("hang:postrec", "case=%r" % (case,), labels=labels)
+    r = judge(p.conn(vic), o, "post-handshake read", before, p.link, vic,
+              labels)
+    if r:
+        return bad(r[0] + ":postrec", r[1] + " | case=%r" % (case,),
+                   labels=labels)
+    return good(labels=labels + ["out=" + (describe_exc(o.exc) if o.exc
+                                           else o.state)])
+
+
+POSTREC_BODIES = {
+    # heartbeat: every short body, type / claimed length lies
+    24: ["", "01", "02", "0100", "0200", "01ffff", "010000", "03000161",
+         "0100026869" + "00" * 16, "0100026869" + "00" * 15,
+         "01ffff" + "61" * 20],
+    # alert: short, long, unknown level / description
+    21: ["", "01", "02", "0100", "010000", "ff00", "02ff", "0159"],
+    # handshake: each post-handshake type, empty / short / lying length
+    22: ["", "18", "1800", "180000", "18000000", "1800000100", "1800000102",
+         "180000020000", "04000000", "0400000100", "00000000", "0000000100",
+         "0d000000", "0b000000", "0f000000", "14000000", "19000000",
+         "ff000000", "18ffffff"],
+    # change_cipher_spec, application data, unknown types
+    20: ["", "01", "02", "0101"],
+    23: ["", "00"],
+    25: ["", "00"], 0: ["", "00"], 255: ["00"],
+}
+
+
 def check(case):
     if "raw" in case:
         return check_raw(case)
+    if "postrec" in case:
+        return check_postrec(case)
     name = case["fl"]
     side = case["side"]
     vic = "s" if side == "c" else "c"
@@ -1014,6 +1080,13 @@ def explicit(tier, seed):
                 for res in (False, True):
                     yield {"raw": "established", "base": False, "hex": hx,
                            "v12": v12, "ign": ign, "res": res}
+    # protected post-handshake records with short / malformed bodies
+    for v12 in (False, True):
+        for vic in "sc":
+            for ct in sorted(POSTREC_BODIES):
+                for hx in POSTREC_BODIES[ct]:
+                    yield {"postrec": 1, "v12": v12, "vic": vic, "ct": ct,
+                           "hex": hx}
     # saved inputs of earlier findings (replayed in every tier)
     import json as _json
     import os
